@@ -32,7 +32,7 @@ struct ffd {
 	int behav, conn_done, so_error;
 	/* listener */
 	int backlog, pending;
-	int nrecv, nsend;
+	int nrecv, nsend, nsenderr;
 };
 static struct ffd F[FK_NFD];
 static struct { int behav; const uint8_t * in; size_t inlen; int in_end; } CS[16];
@@ -123,6 +123,7 @@ int fk_nconnects(void){ return nconnects; }
 int fk_connect_order(int k){ return (k >= 0 && k < 16) ? conn_order[k] : -1; }
 int fk_fd_of_attempt(int idx){ return (idx >= 0 && idx < 16) ? attempt_fd[idx] : -1; }
 int fk_recv_calls(int fd){ struct ffd * f = getf(fd); return f ? f->nrecv : 0; }
+int fk_send_errors(int fd){ struct ffd * f = getf(fd); return f ? f->nsenderr : 0; }
 int fk_send_broken(int fd){ struct ffd * f = getf(fd); return f ? f->broken : 0; }
 int fk_conn_established(int fd){ struct ffd * f = getf(fd); return f ? (f->conn_done && f->so_error == 0 && f->behav != FK_C_ASYNC_FAIL && f->behav != FK_C_REFUSED) : 0; }
 int fk_polled(const struct pollfd * fds, int n, int fd, short ev){ int i; for (i = 0; i < n; i++) if (fds[i].fd == fd && (fds[i].events & ev)) return 1; return 0; }
@@ -292,7 +293,7 @@ send(int fd, const void * buf, size_t len, int flags)
 	if (len == 0) misuse("send with zero length on fd %d", fd);
 	if (f->eintr_w) { f->eintr_w = 0; mc_note("send(fd %d, %zu) -> EINTR", fd, len); errno = EINTR; return (-1); }
 	if (f->spurious_w) { f->spurious_w = 0; mc_note("send(fd %d, %zu) -> EAGAIN (spurious)", fd, len); errno = EAGAIN; return (-1); }
-	if (f->broken) { mc_note("send(fd %d, %zu) -> EPIPE", fd, len); errno = EPIPE; return (-1); }
+	if (f->broken) { f->nsenderr++; mc_note("send(fd %d, %zu) -> EPIPE", fd, len); errno = EPIPE; return (-1); }
 	if (f->space == 0) { mc_note("send(fd %d, %zu) -> EAGAIN", fd, len); errno = EAGAIN; return (-1); }
 	k = (f->space == INF || f->space >= len) ? len : f->space;
 	if (f->outlen + k > f->outcap) { f->outcap = (f->outlen + k) * 2 + 64; f->out = realloc(f->out, f->outcap); if (!f->out) vf_engine_error("oom in fake kernel"); }
